@@ -591,10 +591,25 @@ def check_normalisers(ctx):
     order = [canon(x) for x in tm[0].value.elts] if tm and isinstance(tm[0].value, ast.Tuple) else None
     roles = {'get_how_many_elements': 'count', 'until_condition': 'until', 'when': 'when'}
     seen = {}
-    if order is None or sorted(order) != ['count', 'until', 'when']:
+    idx = None
+    if order is not None and sorted(order) == ['count', 'until', 'when']:
+        idx = {nm: 'self.tmp[%d]' % i for i, nm in enumerate(order)}
+    else:
+        # each raw value kept in an attribute of its own (a top-level statement of the constructor,
+        # an attribute that nothing else of the class assigns)
+        kept = {}
+        for st_ in ctor.node.body:
+            if isinstance(st_, ast.Assign) and len(st_.targets) == 1 and isinstance(st_.targets[0], ast.Attribute) and canon(st_.targets[0].value) == 'self' \
+                    and isinstance(st_.value, ast.Name) and st_.value.id in ('count', 'until', 'when'):
+                kept.setdefault(st_.value.id, []).append(st_.targets[0].attr)
+        others = {n.attr for c_ in set(repo.mro(sqc)) | set(repo.subclasses(sqc.name)) for m_ in c_.methods.values() if m_ is not ctor for n in ast.walk(m_.node)
+                  if isinstance(n, ast.Attribute) and isinstance(n.ctx, (ast.Store, ast.Del)) and canon(n.value) == 'self'}
+        if sorted(kept) == ['count', 'until', 'when'] and all(len(v) == 1 and v[0] not in others for v in kept.values()):
+            idx = {nm: 'self.%s' % v[0] for nm, v in kept.items()}
+            order = ['%s in self.%s' % (nm, v[0]) for nm, v in sorted(kept.items())]
+    if idx is None:
         ctx.violation(rule, ctor, 'self.tmp = %s' % (canon(tm[0].value) if tm else None), 'count / until / when are not kept for _compile', ctor.node.lineno, clause='g')
     else:
-        idx = {nm: 'self.tmp[%d]' % i for i, nm in enumerate(order)}
         got = _routes(ctx, repo, sqc, set(roles))
         bad = {}
         for attr, role in roles.items():
@@ -740,13 +755,50 @@ def check_modifier_plumbing(ctx):
         ctx.violation(rule, sq, 'Sequence.__init__ stores %s' % {k: keep.get(k) for k in ('prototype_field', 'aligned_to')}, 'the element prototype / alignment are not kept unchanged', sq.node.lineno, clause='g')
     # exactly one of count / until
     xor_ok = False
-    for n in ast.walk(sq.node):
-        if isinstance(n, ast.If) and any(isinstance(x, ast.Raise) for x in n.body):
-            t = canon(n.test)
-            if 'count is None' in t and 'until is None' in t and 'count is not None' in t and 'until is not None' in t:
-                xor_ok = True
+
+    class _Open(Exception):
+        pass
+
+    def _ev(t, env):
+        # truth of a test over the atoms "count is None" / "until is None"
+        if isinstance(t, ast.BoolOp):
+            vals = [_ev(v, env) for v in t.values]
+            return all(vals) if isinstance(t.op, ast.And) else any(vals)
+        if isinstance(t, ast.UnaryOp) and isinstance(t.op, ast.Not):
+            return not _ev(t.operand, env)
+        if isinstance(t, ast.Compare) and len(t.ops) == 1:
+            l, r, op = t.left, t.comparators[0], t.ops[0]
+            if isinstance(l, ast.Name) and l.id in env and isinstance(r, ast.Constant) and r.value is None and isinstance(op, (ast.Is, ast.IsNot, ast.Eq, ast.NotEq)):
+                return env[l.id] if isinstance(op, (ast.Is, ast.Eq)) else not env[l.id]
+            if isinstance(op, (ast.Eq, ast.NotEq, ast.Is, ast.IsNot)) and all(isinstance(x, (ast.Compare, ast.BoolOp, ast.UnaryOp)) for x in (l, r)):
+                same = _ev(l, env) == _ev(r, env)
+                return same if isinstance(op, (ast.Eq, ast.Is)) else not same
+        if isinstance(t, ast.BinOp) and isinstance(t.op, ast.BitXor):
+            return _ev(t.left, env) != _ev(t.right, env)
+        raise _Open()
+    rejected, open_ = set(), False
+    for n in sq.node.body:
+        if isinstance(n, ast.If) and n.body and all(isinstance(x, ast.Raise) for x in n.body) and not n.orelse:
+            for a_ in (True, False):
+                for b_ in (True, False):
+                    try:
+                        if _ev(n.test, {'count': a_, 'until': b_}):
+                            rejected.add((a_, b_))
+                    except _Open:
+                        if any(isinstance(x, ast.Name) and x.id in ('count', 'until') for x in ast.walk(n.test)):
+                            open_ = True
+    if {(True, True), (False, False)} <= rejected and not ({(True, False), (False, True)} & rejected):
+        xor_ok = True
+    if not xor_ok:
+        for n in ast.walk(sq.node):
+            if isinstance(n, ast.If) and any(isinstance(x, ast.Raise) for x in n.body):
+                t = canon(n.test)
+                if 'count is None' in t and 'until is None' in t and 'count is not None' in t and 'until is not None' in t:
+                    xor_ok = True
     if xor_ok:
         ctx.holds(rule, sq, 'Sequence.__init__: exactly one of count / until, else ValueError', 'the two repetition modes are exclusive', sq.node.lineno, clause='g')
+    elif open_:
+        ctx.undecided(rule, sq, 'Sequence.__init__', 'a test on count / until that the rule cannot evaluate guards a raise: cannot see which combinations are rejected', sq.node.lineno, clause='g')
     else:
         ctx.violation(rule, sq, 'Sequence.__init__', 'a sequence with both or neither of count / until is accepted', sq.node.lineno, clause='g')
     op = repo.cls('Optional').methods.get('__init__')
